@@ -20,4 +20,6 @@ def run(P, R, L):
     pair5(P, R, L)
     R.clause("PAIR-13", "every data block written by the table builder gets an index entry carrying its handle; the footer points at (metaindex, index)")
     K.pair13_block_indexed(P, R, L)
+    R.clause("PAIR-12", "the two-level iterator's (data block iterator, loaded block handle) pair is always written together")
+    K.pair12_file_level_pairs(P, R, L, only={"tables::table::TwoLevelIterator"})
     R.not_decided += ["prefix compression, separators, seek positions, iteration order (computed bytes)"]
